@@ -3,6 +3,7 @@
 //   small    mask-enumerated patterns with a full diagonal (encoding of Patterns.tla, values of
 //            DirectVals.tla), integer f / x, dyadic damping: results logged as fixed point
 //            rint(v * 2^20) and judged by TLC against the exact rational definition (C06Trace)
+//   iluk5    5x5 patterns with five off-diagonal entries through ILU(1) (the space of IlukModel)
 //   random   seeded random matrices: M-matrix, dominant structurally non-symmetric, dominant with
 //            symmetric pattern, complex, 2x2 / 3x3 block valued; the recorder evaluates the dense
 //            definition in long double and logs the quantised error (class O)
@@ -431,6 +432,25 @@ static void mode_small(bool th) {
     }
 }
 
+// 5 x 5 patterns with a full diagonal and exactly five off-diagonal entries through ILU(1): the space of
+// IlukModel (the smallest one where a fill entry can be refused first and admitted later)
+static void mode_iluk5(bool th) {
+    const int n = 5; std::vector<int> off; for (int p = 0; p < n * n; ++p) if (p / n != p % n) off.push_back(p);
+    unsigned long diag = 0; for (int i = 0; i < n; ++i) diag |= 1ul << (i * n + i);
+    unsigned long cnt = 0, step = th ? 2 : 16;
+    std::vector<int> c(5);
+    for (c[0] = 0; c[0] < 20; ++c[0]) for (c[1] = c[0] + 1; c[1] < 20; ++c[1]) for (c[2] = c[1] + 1; c[2] < 20; ++c[2]) for (c[3] = c[2] + 1; c[3] < 20; ++c[3]) for (c[4] = c[3] + 1; c[4] < 20; ++c[4]) {
+        unsigned long mask = diag; for (int k = 0; k < 5; ++k) mask |= 1ul << off[c[k]];
+        bool witness = mask == (diag | (1ul << 1) | (1ul << 9) | (1ul << 14) | (1ul << 15) | (1ul << 17));
+        if (((cnt++) % step) && !witness) continue;
+        auto A = vd::mk_matrix(n, mask, 0, vd::DOM);
+        caseinfo ci{"dom5", true, A.get(), 3, 4};
+        dvec f(n), x(n), xs(n); auto fb = vd::vec_b(n), xa = vd::vec_a(n);
+        for (int i = 0; i < n; ++i) { f[i] = fb[i]; x[i] = xa[i]; xs[i] = fb[n - 1 - i]; }
+        c_iluk<double>(*A, ci, f, x, xs, 1);
+    }
+}
+
 static std::shared_ptr<crsd> skeleton(vr::rng &g, int n, int kind) {
     // 0 general non-symmetric pattern, 1 symmetric M-matrix, 2 symmetric pattern with non-symmetric values, 3 tridiagonal, 4 arrow
     if (kind == 1) return vr::random_mmatrix(g, n, 2.5 / std::max(n, 2), 3, 1, true);
@@ -475,6 +495,7 @@ int main(int argc, char **argv) {
     std::string mode = argc > 1 ? argv[1] : "small";
     uint64_t seed = vr::env_seed(); bool th = vr::thorough();
     if (mode == "small") mode_small(th);
+    else if (mode == "iluk5") mode_iluk5(th);
     else if (mode == "random") mode_random(seed, vr::env_int("VERIF_REPS", th ? 200 : 40), vr::env_int("VERIF_NMAX", th ? 60 : 30));
     vr::obj o; o.str("e", "End"); vr::emit(o.done());
     return 0;
